@@ -63,7 +63,7 @@ def _init():
 
 
 PLAIN = ["Red", "Blue", "Green", "Square", "Circle", "Triangle", "Cross", "Face", "Yellow", "Black", "White", "Star"]
-COLNAMES = ["trial_type", "response", "stim", "level", "side", "resp-type", "block2", "Stim-2_b"]   # [a-z_\-0-9]+, any case
+COLNAMES = ["trial_type", "response", "stim", "level", "side", "resp-type", "block2", "Stim-2_b", "duration"]   # [a-z_\-0-9]+, any case
 VALUE_TAGS = ["Label/#", "Age/#", "ID/#"]
 
 
@@ -159,7 +159,9 @@ def generate(run_index, seed, tier):
     for c in cols.values():
         for top in (list(c.get("entries", {}).values()) + ([c["template"]] if "template" in c else [])):
             used |= _refs_in(top)
-    table_cols = list(names) + (["HED"] if has_hed_col else []) + (["extra"] if g.chance(0.3) else [])
+    # a column the sidecar does not mention; "hed" / "Hed" are ordinary names (only "HED" is the HED column)
+    extra_name = g.pick(["extra", "extra", "hed", "Hed"])
+    table_cols = list(names) + (["HED"] if has_hed_col else []) + ([extra_name] if g.chance(0.35) else [])
     order = g.shuffled(table_cols)
     if g.chance(0.5):
         order = ["onset"] + order
@@ -173,8 +175,8 @@ def generate(run_index, seed, tier):
                 row[c] = "%g" % t
             elif c == "HED":
                 row[c] = g.pick(["Hand", "(Foot, Black)", "n/a", "n/a", "", " Hand", "Hand ", " (Foot, Black) ", " ", "  "])
-            elif c == "extra":
-                row[c] = g.pick(["x", "y", "n/a"])
+            elif c == extra_name:
+                row[c] = g.pick(["x", "y", "n/a", "Purple", "(Orange, Pink)"])
             elif kinds[c] == "categorical":
                 near = ["1.0", "02", "1e1", " go", "GO"] if any(k in cols[c]["entries"] for k in ("1", "2", "10")) else [" go", "GO"]
                 row[c] = g.pick(sorted(cols[c]["entries"]) * 2 + ["n/a", "n/a", "", "unknownkey", g.pick(near)])
@@ -185,7 +187,8 @@ def generate(run_index, seed, tier):
         rows.append([row[c] for c in order])
     calls = []
     CALLS = ["series_a", "series_a", "dataframe_a", "assemble_skip", "assemble", "series_filtered", "validate", "get_def_dict",
-             "get_column_refs", "columns", "to_csv", "sidecar_column_data", "sidecar_json", "second_table_series_a"]
+             "get_column_refs", "columns", "to_csv", "sidecar_column_data", "sidecar_json", "second_table_series_a",
+             "assemble_other_mapper"]
     for _ in range(g.randint(3, 12)):
         calls.append(g.pick(CALLS))
     if has_hed_col and g.chance(0.15):
@@ -432,7 +435,7 @@ def execute(sc, script=None):
     nontrivial = False
     n_assembly = 0
 
-    def check_series(series, kind, where):
+    def check_series(series, kind, where, want=want):
         vals = [str(v) for v in series]
         if len(vals) != len(sc["rows"]):
             viol("one-row-per-row", "%s returned %d annotations for %d rows" % (where, len(vals), len(sc["rows"])), "row-count-%s" % kind)
@@ -486,6 +489,23 @@ def execute(sc, script=None):
                 res = sorted(sidecar.column_data)
             elif call == "sidecar_json":
                 res = json.loads(sidecar.get_as_json_string())
+            elif call == "assemble_other_mapper":
+                # the documented escape hatch assemble(mapper=...): a mapper built from the same sidecar minus one column
+                # that neither holds nor is the target of a reference; the result follows THAT mapper
+                drop = [nm for nm, col in sorted(sc["columns"].items()) if col["kind"] != "ignored" and nm not in sc["used_refs"]
+                        and not any(_refs_in(t) for t in (list(col.get("entries", {}).values())
+                                                          + ([col["template"]] if "template" in col else [])))]
+                if drop:
+                    probe("assemble_with_another_mapper")
+                    sc2 = copy.deepcopy(sc)
+                    sc2["columns"][drop[0]] = {"kind": "ignored"}
+                    from hed.models.column_mapper import ColumnMapper
+                    other = ColumnMapper(sidecar=W["Sidecar"](io.StringIO(json.dumps(_sidecar_json(sc2))), name="other"),
+                                         optional_tag_columns=["HED"], warn_on_missing_column=True)
+                    other.set_column_map(list(tab.columns))
+                    check_series(tab.combine_dataframe(tab.assemble(mapper=other)), "assemble_other_mapper",
+                                 "call %d assemble(mapper=other)" % ci, want=reference_rows(sc2, file_input))
+                res = None
             elif call == "second_table_series_a":
                 probe("shared_sidecar_second_table")
                 if second is None:
